@@ -276,6 +276,34 @@ fn date_on_year(
     }
 }
 
+/// Project both bounds of a dated range on a given year. An impossible day moves forward when
+/// it starts the range and backward when it ends it: when both cross each other there is no
+/// valid day in between (`Apr 31`, or `Feb 29-30` out of leap years) and the range does not exist
+/// on this year.
+fn bounds_on_year(
+    start: ds::Date,
+    end: ds::Date,
+    for_year: i32,
+) -> (Option<NaiveDate>, Option<NaiveDate>) {
+    let start_date = date_on_year(start, for_year, valid_ymd_after);
+    let end_date = date_on_year(end, for_year, valid_ymd_before);
+
+    let written_in_order = match (start, end) {
+        (
+            ds::Date::Fixed { month: start_month, day: start_day, .. },
+            ds::Date::Fixed { month: end_month, day: end_day, .. },
+        ) => (start_month as u8, start_day) <= (end_month as u8, end_day),
+        _ => false,
+    };
+
+    match (start_date, end_date) {
+        (Some(start_date), Some(end_date)) if written_in_order && start_date > end_date => {
+            (None, None)
+        }
+        bounds => bounds,
+    }
+}
+
 /// Explicit bounds of a dated range whose start has a fixed year: an end without year falls in
 /// the year of the start, or in the following one if it would come before the start.
 fn bounds_with_start_year(
@@ -354,10 +382,10 @@ impl DateFilter for ds::MonthdayRange {
                 is_open_from_bounds(
                     date,
                     (year - 1..=year + 1)
-                        .filter_map(|y| date_on_year(*start, y, valid_ymd_after))
+                        .filter_map(|y| bounds_on_year(*start, *end, y).0)
                         .map(|d| start_offset.apply(d)),
                     (year - 1..=year + 1)
-                        .filter_map(|y| date_on_year(*end, y, valid_ymd_before))
+                        .filter_map(|y| bounds_on_year(*start, *end, y).1)
                         .map(|d| end_offset.apply(d)),
                 )
             }
@@ -443,10 +471,10 @@ impl DateFilter for ds::MonthdayRange {
                 Some(next_change_from_bounds(
                     date,
                     (year - 1..=year + 10)
-                        .filter_map(|y| date_on_year(*start, y, valid_ymd_after))
+                        .filter_map(|y| bounds_on_year(*start, *end, y).0)
                         .map(|d| start_offset.apply(d)),
                     (year - 1..=year + 10)
-                        .filter_map(|y| date_on_year(*end, y, valid_ymd_before))
+                        .filter_map(|y| bounds_on_year(*start, *end, y).1)
                         .map(|d| end_offset.apply(d)),
                 ))
             }
